@@ -355,10 +355,10 @@ pub fn run(tier: Tier, replay: Option<Value>) -> i32 {
     let run = Run::new("C16", "exploration", tier, replay.clone());
     let stitched_replay = replay.as_ref().and_then(|r| r.get("stitched")).is_some();
     if !stitched_replay {
-        run.par_cases(tier.pick(600, 8000), super::threads(), |c| one_case(&run, c));
+        run.par_cases(tier.pick(600, 40000), super::threads(), |c| one_case(&run, c));
     }
     if replay.is_none() || stitched_replay {
-        let n = tier.pick(20u64, 300);
+        let n = tier.pick(20u64, 1500);
         if let Some(r) = &replay {
             stitched_case(&run, r["case"].as_u64().unwrap_or(0));
         } else {
